@@ -107,13 +107,13 @@ func runMulti(c *verdict.Ctx, idx int) {
 // ---- single-node mode
 
 type solo struct {
-	c    *verdict.Ctx
-	net  *sim.Net
-	nd   *sim.Node
-	me   int
-	r    *rand.Rand
-	now  time.Time
-	cfg  sim.Config
+	c   *verdict.Ctx
+	net *sim.Net
+	nd  *sim.Node
+	me  int
+	r   *rand.Rand
+	now time.Time
+	cfg sim.Config
 }
 
 // stubs returns the genesis indexes of stub validators present in vals, shuffled.
@@ -446,6 +446,73 @@ func (s *solo) recipeRelockStalePolka() string {
 	return "stale-polka-without-relock"
 }
 
+// recipeLaggingCommit: the node precommits B in round r0 (it saw the polka) and stays in that round; the
+// network meanwhile decides in a later round R, and the node learns of R through precommits only (what
+// peers that are already at the next height send a lagging peer): +2/3 precommits for a block at round R
+// (the same block, or another one), or a mix giving 2/3-any.  Whatever it signs next must carry round R
+// (or later), never a second precommit for round r0.
+func (s *solo) recipeLaggingCommit() string {
+	net, nd, r := s.net, s.nd, s.r
+	rs := nd.CS.GetRoundState()
+	h := rs.Height
+	if !net.StartRoundOne(s.me, h) {
+		return "cannot-start"
+	}
+	rs = nd.CS.GetRoundState()
+	vals := rs.Validators
+	stubs := s.stubs(vals)
+	var stubPower int64
+	for _, g := range stubs {
+		stubPower += s.power(vals, g)
+	}
+	if 3*stubPower <= 2*vals.TotalVotingPower() {
+		return "stubs-below-quorum"
+	}
+	r0 := rs.Round
+	if g := net.ProposerAt(nd, r0); net.IsFaulty[g] {
+		kb := net.ByzBlock(nd, g, r0, 41, "")
+		if kb == nil {
+			return "cannot-build"
+		}
+		net.Send(g, s.me, net.ProposalMsgs(g, kb, h, r0, -1)...)
+	}
+	s.deliverAllToMe()
+	rs = nd.CS.GetRoundState()
+	if rs.ProposalBlock == nil {
+		return "no-proposal"
+	}
+	B := types.BlockID{Hash: rs.ProposalBlock.Hash(), PartSetHeader: rs.ProposalBlockParts.Header()}
+	s.sendVotes(s.votesFrom(stubs, tmproto.PrevoteType, h, r0, B))
+	s.deliverAllToMe()
+	rs = nd.CS.GetRoundState()
+	if rs.LockedBlock == nil || rs.Round != r0 {
+		return "not-locked-in-r0"
+	}
+	R := r0 + 1 + int32(r.Intn(3))
+	mode := r.Intn(3)
+	X := B
+	if mode == 1 { // the network decided another block in round R
+		var prop int
+		for _, g := range stubs {
+			prop = g
+		}
+		if kb := net.ByzBlock(nd, prop, R, 43, ""); kb != nil {
+			X = kb.BlockID
+		}
+	}
+	switch mode {
+	case 0, 1:
+		s.sendVotes(s.votesFrom(stubs, tmproto.PrecommitType, h, R, X))
+	default: // 2/3-any at round R: some for the block, some nil
+		half := len(stubs) / 2
+		s.sendVotes(s.votesFrom(stubs[:half], tmproto.PrecommitType, h, R, X))
+		s.sendVotes(s.votesFrom(stubs[half:], tmproto.PrecommitType, h, R, types.BlockID{}))
+	}
+	s.deliverAllToMe()
+	cur := nd.CS.GetRoundState()
+	return fmt.Sprintf("done(mode=%d,height-moved=%v,round=%d-of-%d)", mode, cur.Height != h, cur.Round-r0, R-r0)
+}
+
 func randHash(r *rand.Rand) []byte {
 	b := make([]byte, 32)
 	r.Read(b)
@@ -490,8 +557,11 @@ func runSolo(c *verdict.Ctx, idx int, tmp string) {
 	net.Start()
 	net.Pump()
 	maxRound := int32(0)
-	if r.Intn(4) == 0 {
+	switch r.Intn(6) {
+	case 0:
 		c.Count("solo.recipe.relock:"+s.recipeRelockStalePolka(), 1)
+	case 1:
+		c.Count("solo.recipe.lagging-commit:"+s.recipeLaggingCommit(), 1)
 	}
 	for k := 0; k < cfg.Steps; k++ {
 		if s.nd.Halted != "" {
